@@ -136,6 +136,104 @@ func runC09(c *core.Ctx) {
 			}
 		}
 	}
+	// ---- the same table for selections made directly on an ABSTRACT container (a union list, an interface list) and for the
+	// __typename meta field: inline fragment on a member, spread of a fragment on a member, __typename - x 49 x 2 orders
+	for si, ssrc := range c09Sources {
+		for ii, isrc := range c09Sources {
+			for order := 0; order < 2; order++ {
+				for kind := 0; kind < 3; kind++ {
+					for cont := 0; cont < 3; cont++ {
+						idx++
+						if !c.OwnsIdx(idx) {
+							continue
+						}
+						var dirs []world.Dir
+						var vdefs []world.VarDef
+						vars := map[string]interface{}{}
+						mk := func(name, src, vname string) {
+							switch src {
+							case "absent":
+								return
+							case "lit-true":
+								dirs = append(dirs, world.Dir{Name: name, If: true})
+							case "lit-false":
+								dirs = append(dirs, world.Dir{Name: name, If: false})
+							case "var-true", "var-false":
+								vdefs = append(vdefs, world.VarDef{Name: vname, Type: "Boolean"})
+								vars[vname] = src == "var-true"
+								dirs = append(dirs, world.Dir{Name: name, If: world.VarRef(vname)})
+							case "vardef-true", "vardef-false":
+								vdefs = append(vdefs, world.VarDef{Name: vname, Type: "Boolean", HasDefault: true, Default: src == "vardef-true"})
+								dirs = append(dirs, world.Dir{Name: name, If: world.VarRef(vname)})
+							}
+						}
+						if order == 0 {
+							mk("skip", ssrc, "sk")
+							mk("include", isrc, "inc")
+						} else {
+							mk("include", isrc, "inc")
+							mk("skip", ssrc, "sk")
+						}
+						d := &world.Doc{}
+						var target *world.Sel
+						switch kind {
+						case 0:
+							target = world.In("A", world.F("id"), world.F("mi")).With(dirs...)
+						case 1:
+							target = world.Sp("FXA").With(dirs...)
+							d.Frags = []*world.Frag{{Name: "FXA", Cond: "A", Sels: []*world.Sel{world.F("id"), world.F("mi")}}}
+						case 2:
+							target = world.F("__typename").With(dirs...)
+						}
+						var sels []*world.Sel
+						switch cont {
+						case 0:
+							sels = []*world.Sel{world.F("us", target, world.In("B", world.F("s"))), world.F("i")}
+						case 1:
+							sels = []*world.Sel{world.F("nameds", target, world.F("name")), world.F("i")}
+						case 2:
+							if kind != 2 {
+								continue
+							}
+							sels = []*world.Sel{target, world.F("a", target, world.F("id")), world.F("i")} // __typename at the root and under an object
+						}
+						d.Ops = []*world.Op{{Type: "query", Name: "Q", Vars: vdefs, Sels: sels}}
+						text := d.Render(world.LOneLine)
+						c.Nontrivial()
+						for _, nc := range configsFor(s, d.Features(s), true) {
+							g := g0
+							if nc.Cfg.Strat == world.FS {
+								g = gfs
+							}
+							ex := world.RefExec(s, g, d, "Q", vars, nil, world.RefOpts{})
+							if ex.Invalid {
+								continue
+							}
+							c.Eval()
+							root, run, err := world.BuildRoot(nc.Cfg, g)
+							if err != nil {
+								panic(core.EngineError{Msg: err.Error()})
+							}
+							o := world.Observe(root, run, text, "Q", vars)
+							k, msg := compareExpect(s, g, ex, o, nc.Cfg.Strat, true)
+							if k == "" {
+								c.Outcome("abstract-agree")
+								continue
+							}
+							c.Outcome("abstract-" + k)
+							attrs := map[string]string{"skip": c09Sources[si], "include": c09Sources[ii], "order": []string{"skip-first", "include-first"}[order],
+								"selection": []string{"inline-on-member", "spread-on-member", "__typename"}[kind], "container": []string{"union", "interface", "object"}[cont]}
+							if k == "panic" {
+								attrs = map[string]string{"site": o.Panic.Site, "class": o.Panic.Class}
+							}
+							c.Violation(k, attrs, worldCase{Config: nc.Name, Query: text, Op: "Q", Vars: vars,
+								Expected: map[string]interface{}{"data": ex.Data, "calls": expectedCalls(s, g, ex, nc.Cfg.Strat)}, Observed: o, Diff: msg})
+						}
+					}
+				}
+			}
+		}
+	}
 	// ---- the selection written TWICE in one selection set, each occurrence with its own directive (9 x 9 states), adjacent or
 	// with another field in between: the selection appears iff at least one occurrence is included (a spread, inline
 	// fragment or field excluded at its first occurrence says nothing about the second)
@@ -303,5 +401,5 @@ func runC09(c *core.Ctx) {
 			}
 		}
 	}
-	c.R.Bound = "complete table 49 x 2 x 3 x 3 x configurations; the selection written twice (9 x 9 directive states x 3 kinds x 2 spacings); + all ordered pairs of 9 variable maps (supplied / omitted) on one parsed executable"
+	c.R.Bound = "complete table 49 x 2 x 3 x 3 x configurations; the same for selections directly on a union / interface container and for __typename; the selection written twice (9 x 9 directive states x 3 kinds x 2 spacings); + all ordered pairs of 9 variable maps (supplied / omitted) on one parsed executable"
 }
